@@ -459,7 +459,7 @@ func lockstep(c config, p rProg, ref *refState, obs *observation) lsResult {
 				timing += "}"
 			}
 			cm := commitMechanisms(p, ref, dyn, surv, obs, in.srcRegs(), k)
-			if strings.HasPrefix(res.Sub, "stale-operand(") && len(cm) == 0 {
+			if strings.HasPrefix(res.Sub, "stale-operand(") && len(cm) == 0 && c.V != "mvp6-0" && c.V != "mvp6-1" {
 				// Nothing in the event log supports an older value (no commit in between). The same bits - for a
 				// branch: the same decision - can often be produced by a wrong-path or a younger value as well;
 				// those readings have their own mechanisms and findings, so they are preferred here.
